@@ -104,6 +104,7 @@ structure St where
   cb : List (String × Nat) := []   -- progress-callback log: (tensor name, offset)
   cbTotal : Option Nat := none
   wopened : List String := []      -- files successfully opened for writing so far (the handles writes go through)
+  tn : List String := []           -- current `name` of each ORIGINAL tensor object (index = identity)
   deriving Repr, Inhabited
 
 abbrev M (α : Type) := St → Except Err α × St
@@ -429,11 +430,19 @@ def serialize (sig : List (String × Bool)) (s : St) : Except Err Proto := seria
 
 def joinPath (dir name : String) : String := if dir = "" then name else dir ++ "/" ++ name
 
+/-- `serde._serialize_graph`: `value.const_value.name = value.name` for every initializer with a `const_value`, in
+`model.graphs()` order (objects created during the save are not tracked: `List.set` beyond the end is a no-op). -/
+def renameAll : List (String × Bool) → List (Option Nat) → List String → List String
+  | (n, _) :: sig, some id :: cv, tn => renameAll sig cv (tn.set id n)
+  | _ :: sig, none :: cv, tn => renameAll sig cv tn
+  | _, _, tn => tn
+
 /-- `ir.save(model, path, external_data=rel, callback=…)`. -/
 def irSave (sig : List (String × Bool)) (tnames : List String) (dir name rel : String) (verbose : Bool) : M Unit := do
   let orig := (← get).cv                                  -- initialized_values / tensors
   tryFinally (do
       unload tnames (joinPath dir rel) verbose
+      modify fun s => { s with tn := renameAll sig s.cv s.tn }   -- serialize_model renames the tensors it visits
       match serialize sig (← get) with
       | .error e => throw e
       | .ok p => do
@@ -446,10 +455,39 @@ def irSave (sig : List (String × Bool)) (tnames : List String) (dir name rel : 
 def guardHits (deep : Bool) (sig : List (String × Bool)) (cv : List (Option Nat)) : List String :=
   ((sig.zip cv).filter fun (x : (String × Bool) × Option Nat) => x.2.isNone && (deep || !x.1.2)).map (·.1.1)
 
-/-- `save_model_with_external_data(model, model_path, verbose)`; `model_path = dir/name`. -/
-def save (deep : Bool) (sig : List (String × Bool)) (tnames : List String) (dir name : String) (verbose : Bool) : M Unit := do
+/-- Which version of the guards of `save_model_with_external_data` is in the tree (probed / pinned by the harness):
+`deep` — the uninitialized-initializer guard walks every graph (fix 1c518f5) instead of the main graph only;
+`refuse` — a second guard refuses, before writing, a model one of whose initializers is an `ExternalTensor` stored in
+the destination data file (proposed fix for C20-D1);
+`keepNames` — the names of the initializers' tensors are remembered and put back in a `finally` (proposed fix for C20-D4);
+`tqdm` — `importlib.util.find_spec("tqdm") is not None` (environment, not code): the progress-bar branch with its callback
+is taken iff `verbose and tqdm`. -/
+structure Cfg where
+  deep : Bool := true
+  refuse : Bool := false
+  keepNames : Bool := false
+  tqdm : Bool := true
+  deriving Repr, DecidableEq, Inhabited
+
+/-- Initializers (by `const_value`) whose tensor is an `ExternalTensor` stored in `dest`
+(`isinstance(value.const_value, ir.ExternalTensor) and _is_same_file(value.const_value.path, data_file)`). -/
+def destHits (dest : String) (heap : List TRef) (cv : List (Option Nat)) : List Nat :=
+  cv.filterMap fun c =>
+    match c with
+    | some id =>
+      (match heap[id]? with
+       | some (.ext f _ _ _) => if f = dest then some id else none
+       | _ => none)
+    | none => none
+
+/-- `save_model_with_external_data(model, model_path, …)`; `model_path = dir/name`; `verbose` here is `use_tqdm`, the
+branch condition (`runSave` computes it as `verbose and find_spec("tqdm") is not None`). -/
+def save (cfg : Cfg) (sig : List (String × Bool)) (tnames : List String) (dir name : String) (verbose : Bool) : M Unit := do
   let s ← get
-  if !(guardHits deep sig s.cv).isEmpty then throw .valueError
+  if !(guardHits cfg.deep sig s.cv).isEmpty then throw .valueError
+  else if cfg.refuse && !(destHits (joinPath dir (name ++ ".data")) s.heap s.cv).isEmpty then throw .valueError
+  else if cfg.keepNames then
+    tryFinally (irSave sig tnames dir name (name ++ ".data") verbose) (fun s' => { s' with tn := s.tn })
   else irSave sig tnames dir name (name ++ ".data") verbose
 
 /-- A model in memory: initializer signature (name, in-subgraph), `const_value` pointers, tensor objects. -/
@@ -466,11 +504,11 @@ structure Result where
   deriving Inhabited
 
 def init (m : Model) (fs : FS) (k : Option Nat) : St :=
-  { k := k, fs := fs, heap := m.heap, cv := m.cv }
+  { k := k, fs := fs, heap := m.heap, cv := m.cv, tn := m.tnames }
 
 /-- Run the save on model `m`, file system `fs`, fault plan `k`. -/
-def runSave (deep : Bool) (m : Model) (dir name : String) (verbose : Bool) (fs : FS) (k : Option Nat) : Result :=
-  match save deep m.sig m.tnames dir name verbose (init m fs k) with
+def runSave (cfg : Cfg) (m : Model) (dir name : String) (verbose : Bool) (fs : FS) (k : Option Nat) : Result :=
+  match save cfg m.sig m.tnames dir name (verbose && cfg.tqdm) (init m fs k) with
   | (r, s) => { res := r, st := s }
 
 /-- The model after the call: same signature, the state's pointers, the *original* objects' state. -/
